@@ -27,3 +27,10 @@ with open(V + "/mutants/REGRESSION.md", "w") as f:
     f.write("# Quick checks against the hand-written mutants and the reverse of every repair (tools/mutants_regress.py)\n\n| mutant | check | result | oracles that fired |\n|---|---|---|---|\n")
     for r in rows:
         f.write("| %s | %s | %s | %s |\n" % r)
+    f.write("""
+Notes on the rows that are not `caught`:
+* `c14-buffered-shrink.diff` (shrink at `>=` instead of `>`): behaviourally equivalent - it only frees unused slots one step earlier.
+* `c12-second-run-waits-for-lock.diff` (reverse of 9d0beb8): equivalent since c28f579 - Run no longer holds the manager's lock while
+  the closers run, so a second Run that queues on the lock is refused a moment later anyway. Against the tree between the two
+  repairs the check reports it (`second-run-blocked`).
+""")
